@@ -239,9 +239,9 @@ func runC19CatchUp(c *harness.Case) {
 	c.Stat("catch_up_watches_served_from_the_cache", atomic.LoadInt64(&caught))
 }
 
-// runC19Servers: the layers above the backend under the detector - two complete nodes (server.NewServer: real
-// Campaign, peer HTTP endpoint, revision syncer; gRPC with the production interceptors; the real Prometheus client
-// behind the recorder) over one store, one leading and one following, each driven by four concurrent gRPC clients
+// runC19Servers: the layers above the backend under the detector - two complete nodes as cmd/option.Run starts them
+// (pkg/endpoint with multiplexed client and peer ports, server.NewServer: real Campaign, revision syncer, etcd proxy;
+// the real Prometheus client behind the recorder) over one store, one leading and one following, each driven by four concurrent gRPC clients
 // sending every request type of both APIs for about a second, while watches are open on the leader.
 func runC19Servers(c *harness.Case) {
 	eng, err := harness.NewEngine("memkv")
@@ -251,21 +251,22 @@ func runC19Servers(c *harness.Case) {
 	}
 	rm := harness.NewRecMetrics(true)
 	kv := harness.WithMetrics(eng.KV, rm)
-	A, ok := newFullNode(c, kv, rm, false)
+	// nodes as cmd/option.Run starts them (pkg/endpoint: multiplexed client/peer ports; etcd proxy on)
+	A, ok := newProdNode(c, kv, rm, false, true, 256)
 	if !ok {
 		return
 	}
-	defer A.n.Retire()
+	defer A.close()
 	P := harness.Prefix
 	if A.waitLeads(P+"/srv/first") == nil {
 		c.Inconclusive("the first node did not become leader within the watchdog")
 		return
 	}
-	B, ok := newFullNode(c, kv, rm, false)
+	B, ok := newProdNode(c, kv, rm, false, true, 256)
 	if !ok {
 		return
 	}
-	defer B.n.Retire()
+	defer B.close()
 	ctx, cancel := context.WithCancel(context.Background())
 	defer cancel()
 	full := P + "/"
@@ -274,13 +275,13 @@ func runC19Servers(c *harness.Case) {
 	var stop int32
 	var wg sync.WaitGroup
 	var sent int64
-	for _, fn := range []*fullNode{A, B} {
+	for _, fn := range []*prodNode{A, B} {
 		for g := 0; g < 4; g++ {
 			wg.Add(1)
 			rr := newRand(c.Rng.Int63())
-			go func(fn *fullNode, g int) {
+			go func(fn *prodNode, g int) {
 				defer wg.Done()
-				e, b := fn.g.etcdGRPC, fn.g.brainGRPC
+				e, b := fn.etcdGRPC, fn.brainGRPC
 				for i := 0; atomic.LoadInt32(&stop) == 0; i++ {
 					key := []byte(fmt.Sprintf("%s/srv/k%d", P, rr.Intn(4)))
 					switch rr.Intn(14) {
